@@ -1,23 +1,28 @@
 (* C09 — how routes reach the router in a real server: executable model of
-     rest/server.go   AddRoutes / AddRoute, WithPrefix (path.Join), Routes(),
-                      WithNotFoundHandler / WithNotAllowedHandler, WithCors, Use
-     rest/engine.go   addRoutes, bindRoutes / bindFeaturedRoutes / bindRoute
-                      (router.Handle per route, Start dies at the first error),
-                      notFoundHandler wrapper (transparent: status 404 either way)
-     rest/internal/cors  Middleware (every OPTIONS request answered 204 before the
-                      router is consulted) and NotAllowedHandler (404 without Allow).
-   No proofs in this file.  Per-route chains (JWT, signature, timeout, breaker ...) are
-   not modelled: the executor runs with all built-in middlewares switched off. *)
+     rest/server.go   AddRoutes / AddRoute (the caller's slice is KEPT, not copied),
+                      RouteOptions applied in order: WithPrefix (path.Join, builds a fresh slice),
+                      WithTimeout / WithMaxBytes / WithPriority / WithSSE / WithJwt (do not touch
+                      methods and paths), WithMiddlewares (fresh slice, wrapped handlers),
+                      Routes(), WithNotFoundHandler / WithNotAllowedHandler, WithCors, WithChain, Use
+     rest/engine.go   addRoutes, bindRoutes / bindFeaturedRoutes / bindRoute at Start
+                      (router.Handle per route, Start dies at the first error)
+     rest/internal/cors  Middleware (every OPTIONS request answered 204 before the router is
+                      consulted) and NotAllowedHandler (404 without Allow).
+
+   The user's route tables live in a STORE (one backing array per table); a group kept by the
+   engine is either an ALIAS of (a sub-slice of) a user's table or a fresh slice.  Aliased groups
+   are read when Start binds them, so anything that writes into a user's table between AddRoutes
+   and Start would change what is served.  The semantics of an option is a parameter ([optsem]):
+   [opt_real] is today's code (no option writes the store), Pinned.v has the in-place variant.
+
+   No proofs in this file.  Per-route chains (JWT, timeout, breaker ...) are transparent for
+   dispatch and not modelled; the executor sends a valid token with every request. *)
 From Coq Require Import List String Ascii Bool ZArith.
 From GZ Require Export C09.Model C09.Spec.
 Import ListNotations.
 Open Scope string_scope.
 
-(* one AddRoutes call *)
-Record group := mkGroup
-  { gprefix : option string;     (* rest.WithPrefix(p) given? *)
-    gmw : bool;                  (* routes wrapped by rest.WithMiddlewares([tag = index of the group]) *)
-    groutes : list reg }.        (* Method, Path, Handler (numbered consecutively over all groups) *)
+(* ------------------------------------------------------------------ path.Join *)
 
 (* path.Join(group, path) before cleaning: empty elements are ignored *)
 Definition prefix_path (g p : string) : string :=
@@ -29,14 +34,70 @@ Definition join_path (g p : string) : string :=
   let x := prefix_path g p in
   match clean_string x with Some s => s | None => x end.
 
-Definition with_prefix (g : group) : list reg :=
-  match gprefix g with
-  | None => groutes g
-  | Some pre => map (fun r => mkReg (rmethod r) (join_path pre (rpath r)) (rhandler r)) (groutes g)
+Definition prefix_reg (g : string) (r : reg) : reg :=
+  mkReg (rmethod r) (join_path g (rpath r)) (rhandler r).
+
+(* ------------------------------------------------------------ slices and store *)
+
+Definition store := list (list reg).
+
+Inductive rref :=
+| RAlias (t lo hi : nat)        (* table[lo:hi] of the user's table number t *)
+| RFresh (l : list reg).        (* a slice nobody else holds *)
+
+Definition slice {A} (l : list A) (lo hi : nat) : list A := firstn (hi - lo) (skipn lo l).
+
+Definition table_at (st : store) (t : nat) : list reg := nth t st [].
+
+Definition deref (st : store) (r : rref) : list reg :=
+  match r with
+  | RAlias t lo hi => slice (table_at st t) lo hi
+  | RFresh l => l
   end.
 
-(* Server.Routes(), which is also the order in which engine.bindRoutes walks them *)
-Definition server_routes (gs : list group) : list reg := flat_map with_prefix gs.
+(* ------------------------------------------------------------------- options *)
+
+Inductive ropt :=
+| OPrefix (g : string)          (* rest.WithPrefix(g) *)
+| OOther.                       (* WithTimeout / WithMaxBytes / WithPriority / WithSSE / WithJwt *)
+
+Definition optsem := store -> rref -> ropt -> store * rref.
+
+(* today's code: WithPrefix builds a fresh slice from whatever the group holds *)
+Definition opt_real : optsem := fun st r o =>
+  match o with
+  | OPrefix g => (st, RFresh (map (prefix_reg g) (deref st r)))
+  | OOther => (st, r)
+  end.
+
+Definition apply_opts (sem : optsem) (st : store) (r : rref) (os : list ropt) : store * rref :=
+  fold_left (fun sr o => sem (fst sr) (snd sr) o) os (st, r).
+
+(* ------------------------------------------------------------------- events *)
+
+(* rest.WithMiddlewares([tag], rs...): a fresh slice whose handlers are wrapped; the wrapped
+   handler is a different function, identified by (route id, tag) *)
+Definition wrap_id (tag : Z) (h : handler) : handler := (h + 100000 * (tag + 1))%Z.
+Definition wrap_reg (tag : Z) (r : reg) : reg := mkReg (rmethod r) (rpath r) (wrap_id tag (rhandler r)).
+
+Record mount := mkMount
+  { msrv : nat;                  (* which server *)
+    mtab : nat; mlo : nat; mhi : nat;   (* tables[mtab][mlo:mhi] *)
+    msingle : bool;              (* AddRoute per route instead of one AddRoutes *)
+    mmw : option Z;              (* wrapped by WithMiddlewares with this tag first *)
+    mopts : list ropt }.         (* the RouteOptions, in order *)
+
+Inductive event :=
+| EMount (m : mount)
+| EStart (s : nat).
+
+Record scfg := mkCfg
+  { sc_nf : bool; sc_na : bool;  (* user 404 / 405 handler given *)
+    sc_cors : bool;              (* rest.WithCors(): installs its own not-allowed handler *)
+    sc_use : bool;               (* Server.Use(tag 1000) *)
+    sc_chain : bool }.           (* rest.WithChain(tag 2000) *)
+
+Definition default_cfg : scfg := mkCfg false false false false false.
 
 Inductive start_result :=
 | Started (r : router)            (* all routes bound; the server would now listen *)
@@ -53,10 +114,101 @@ Fixpoint bind_routes (r : router) (regs : list reg) : start_result :=
     end
   end.
 
-(* NewServer(opts) ... AddRoutes ... Start.  [nf]/[na]: a user 404 / 405 handler given;
-   [cors]: rest.WithCors(), which installs its own not-allowed handler *)
-Definition server_start (nf na cors : bool) (gs : list group) : start_result :=
-  bind_routes (new_router nf (na || cors)) (server_routes gs).
+Definition start_server (cfgs : list scfg) (s : nat) (regs : list reg) : start_result :=
+  let c := nth s cfgs default_cfg in
+  bind_routes (new_router (sc_nf c) (sc_na c || sc_cors c)) regs.
+
+Record world := mkWorld
+  { wstore : store;                          (* the user's tables *)
+    wgroups : list (nat * rref);             (* (server, engine group), in order of AddRoutes *)
+    wstarts : list (nat * start_result) }.   (* (server, how Start ended), in order of Start *)
+
+(* the slice value handed to AddRoutes *)
+Definition mount_arg (st : store) (m : mount) : rref :=
+  match mmw m with
+  | Some tag => RFresh (map (wrap_reg tag) (slice (table_at st (mtab m)) (mlo m) (mhi m)))
+  | None => RAlias (mtab m) (mlo m) (mhi m)
+  end.
+
+(* AddRoutes(rs, opts...) / for each r: AddRoute(r, opts...) = AddRoutes([]Route{r}, opts...) *)
+Definition do_mount (sem : optsem) (st : store) (m : mount) : store * list rref :=
+  if msingle m then
+    fold_left (fun acc x =>
+                 let sg := apply_opts sem (fst acc) (RFresh [x]) (mopts m) in
+                 (fst sg, (snd acc ++ [snd sg])%list))
+              (deref st (mount_arg st m)) (st, [])
+  else
+    let sg := apply_opts sem st (mount_arg st m) (mopts m) in (fst sg, [snd sg]).
+
+(* the groups of server s, read NOW *)
+Definition engine_regs (st : store) (gs : list (nat * rref)) (s : nat) : list reg :=
+  flat_map (fun g => deref st (snd g)) (filter (fun g => Nat.eqb (fst g) s) gs).
+
+Definition step (sem : optsem) (cfgs : list scfg) (w : world) (e : event) : world :=
+  match e with
+  | EMount m =>
+    let sg := do_mount sem (wstore w) m in
+    mkWorld (fst sg) (wgroups w ++ map (fun g => (msrv m, g)) (snd sg))%list (wstarts w)
+  | EStart s =>
+    mkWorld (wstore w) (wgroups w)
+            (wstarts w ++ [(s, start_server cfgs s (engine_regs (wstore w) (wgroups w) s))])%list
+  end.
+
+Definition run (sem : optsem) (cfgs : list scfg) (tables : store) (evs : list event) : world :=
+  fold_left (step sem cfgs) evs (mkWorld tables [] []).
+
+(* how the (first) Start of server s ended *)
+Fixpoint start_of (l : list (nat * start_result)) (s : nat) : option start_result :=
+  match l with
+  | [] => None
+  | (s', r) :: l' => if Nat.eqb s' s then Some r else start_of l' s
+  end.
+
+(* ------------------------------------------------- the specification side
+   what the user wrote: the tables, and for every AddRoutes call its options.  The routes a
+   mount contributes = its slice of the table AS WRITTEN, every prefix applied in order. *)
+
+Definition apply_prefixes (os : list ropt) (r : reg) : reg :=
+  fold_left (fun r o => match o with OPrefix g => prefix_reg g r | OOther => r end) os r.
+
+Definition written (tables : store) (m : mount) : list reg :=
+  let l := slice (table_at tables (mtab m)) (mlo m) (mhi m) in
+  match mmw m with Some tag => map (wrap_reg tag) l | None => l end.
+
+Definition mount_regs (tables : store) (m : mount) : list reg :=
+  map (apply_prefixes (mopts m)) (written tables m).
+
+Fixpoint mounts_of (s : nat) (evs : list event) : list mount :=
+  match evs with
+  | [] => []
+  | EMount m :: evs' => if Nat.eqb (msrv m) s then m :: mounts_of s evs' else mounts_of s evs'
+  | EStart _ :: evs' => mounts_of s evs'
+  end.
+
+(* the union of the prefix-extended tables mounted on server s *)
+Definition spec_regs (tables : store) (evs : list event) (s : nat) : list reg :=
+  flat_map (mount_regs tables) (mounts_of s evs).
+
+(* the events before the first Start of server s *)
+Fixpoint before_start (s : nat) (evs : list event) : list event :=
+  match evs with
+  | [] => []
+  | EStart s' :: evs' => if Nat.eqb s' s then [] else EStart s' :: before_start s evs'
+  | e :: evs' => e :: before_start s evs'
+  end.
+
+Fixpoint has_start (s : nat) (evs : list event) : bool :=
+  match evs with
+  | [] => false
+  | EStart s' :: evs' => Nat.eqb s' s || has_start s evs'
+  | _ :: evs' => has_start s evs'
+  end.
+
+(* what Start of server s must do, from what the user wrote only *)
+Definition spec_start (cfgs : list scfg) (tables : store) (evs : list event) (s : nat) : start_result :=
+  start_server cfgs s (spec_regs tables (before_start s evs) s).
+
+(* ------------------------------------------------------------- serving *)
 
 Inductive sresponse :=
 | SResp (r : response)
@@ -74,16 +226,8 @@ Definition sserve (cors : bool) (r : router) (m p : string) : sresponse :=
   if cors && (m =? "OPTIONS") then SCors204
   else SResp (if cors then cors_view (serve r m p) else serve r m p).
 
-(* middleware tags a handler must see, outermost first: Server.Use (tag 1000), then the tag
-   of its own group if that group was wrapped *)
-Fixpoint group_tag (gs : list group) (i : Z) (h : handler) : list Z :=
-  match gs with
-  | [] => []
-  | g :: gs' =>
-    if existsb (fun r => Z.eqb (rhandler r) h) (groutes g)
-    then (if gmw g then [i] else [])
-    else group_tag gs' (i + 1)%Z h
-  end.
-
-Definition mw_expected (use : bool) (gs : list group) (h : handler) : list Z :=
-  ((if use then [1000%Z] else []) ++ group_tag gs 0%Z h)%list.
+(* middleware tags a handler must see, outermost first: WithChain (2000), Server.Use (1000),
+   then the WithMiddlewares tag its identity carries *)
+Definition mw_expected (c : scfg) (h : handler) : list Z :=
+  ((if sc_chain c then [2000%Z] else []) ++ (if sc_use c then [1000%Z] else []) ++
+   (if (100000 <=? h)%Z then [(h / 100000 - 1)%Z] else []))%list.
